@@ -46,7 +46,7 @@ def lifeEv (t : String) : Option Spec.Life.Ev :=
   | "R1" => some (.register true) | "R0" => some (.register false)
   | "C1" => some (.connected true) | "C0" => some (.connected false)
   | "D1" => some (.disconnected true) | "D0" => some (.disconnected false)
-  | "OK" => some .connectOk | "ERR" => some .connectErr
+  | "CALL" => some .connectCall | "OK" => some .connectOk | "ERR" => some .connectErr
   | "AGAINOK" => some .againOk | "AGAINREF" => some .againRefused
   | "ALIVE" => some .alive | "DEAD" => some .dead | "CAUSE" => some .cause | "CLOSERET" => some .closeRet
   | "FRESHUP" => some .freshUp | "FRESHDOWN" => some .freshDown | "CWC" => some .closedFired
